@@ -2,6 +2,10 @@ import GmQuic.Drv.Core
 import GmQuic.Model.Wake
 import GmQuic.Model.Wake2
 import GmQuic.Model.WakeAA
+import GmQuic.Model.Wake3
+import GmQuic.Model.Wake4
+import GmQuic.Model.Wake5
+import GmQuic.Model.WakeCid
 /-! Line driver for C16: one entry per waiter/notifier protocol; exact comparison of the poll result and of
 the (sorted) list of wakers woken by every operation.  The models of `Receiving` and `OpenStream` are the
 ones of the FIXED code (repo_patches/fix-C16-*.diff); `C16rx0` / `C16open0` replay against the pinned code. -/
@@ -33,6 +37,16 @@ def mk (P : WaitProto) (parse : List String → Option P.Op) : Model P.σ where
     | some o =>
       let r := P.step s o
       (r.1, s!"{fmtRes r.2.res} wakes={fmtWakes r.2.wakes}")
+
+/-- like `mk`, with extra observation tokens computed from the state before/after the op -/
+def mkX (P : WaitProto) (parse : List String → Option P.Op) (extra : P.σ → P.Op → P.σ → String) : Model P.σ where
+  init := P.init
+  step := exact fun s op =>
+    match parse op with
+    | none => (s, "BAD op")
+    | some o =>
+      let r := P.step s o
+      (r.1, s!"{fmtRes r.2.res}{extra s o r.1} wakes={fmtWakes r.2.wakes}")
 
 def nat? (s : String) : Option Nat := s.toNat?
 
@@ -84,6 +98,76 @@ def parseDgram : List String → Option Dgram.Op
   | ["poll", t, w] => do some (.poll (← nat? t) (← nat? w))
   | ["recv", v] => do some (.recv (← nat? v))
   | ["conn_error"] => some .connError
+  | ["dropfut", t] => do some (.dropfut (← nat? t))
+  | _ => none
+
+def parseSnd : List String → Option Snd.Op
+  | ["poll", t, w, "write", n] => do some (.poll (← nat? t) (← nat? w) (.write (← nat? n)))
+  | ["poll", t, w, "flush"] => do some (.poll (← nat? t) (← nat? w) .flush)
+  | ["poll", t, w, "shutdown"] => do some (.poll (← nat? t) (← nat? w) .shutdown)
+  | ["window", v] => do some (.window (← nat? v))
+  | ["load"] => some .load
+  | ["ack"] => some .ack
+  | ["stop"] => some .stop
+  | ["cancel"] => some .cancel
+  | ["conn_error"] => some .connError
+  | ["dropfut", t] => do some (.dropfut (← nat? t))
+  | _ => none
+
+def sndExtra (s : Snd.State) (o : Snd.Op) (s' : Snd.State) : String :=
+  match o with
+  | .load =>
+    if s'.unacked.length > s.unacked.length then
+      match s'.unacked.getLast? with
+      | some (a, b, fin) => s!" emitted={a}..{b}:{if fin then 1 else 0}"
+      | none => " emitted=-"
+    else " emitted=-"
+  | _ => ""
+
+def parseRcv : List String → Option Rcv.Op
+  | ["poll", t, w, c] => do some (.poll (← nat? t) (← nat? w) (← nat? c))
+  | ["data", o, l, f] => do some (.data (← nat? o) (← nat? l) ((← nat? f) != 0))
+  | ["reset", f] => do some (.reset (← nat? f))
+  | ["conn_error"] => some .connError
+  | ["dropfut", t] => do some (.dropfut (← nat? t))
+  | _ => none
+
+def parseListen : List String → Option Listen.Op
+  | ["poll", t, w, d] => do some (.poll (← nat? t) (← nat? w) ((← nat? d) != 0))
+  | ["arrive", d, k] => do some (.arrive ((← nat? d) != 0) (← nat? k))
+  | ["conn_error"] => some .connError
+  | ["dropfut", t] => do some (.dropfut (← nat? t))
+  | _ => none
+
+def parseFan : List String → Option Fan.Op
+  | ["poll", t, w, m] => do some (.poll (← nat? t) (← nat? w) (BitVec.ofNat 16 (← nat? m)))
+  | ["wake_all", m] => do some (.wakeAll (BitVec.ofNat 16 (← nat? m)))
+  | ["insert", i] => do some (.insert ((← nat? i) != 0))
+  | ["remove", i] => do some (.remove ((← nat? i) != 0))
+  | ["dropfut", t] => do some (.dropfut (← nat? t))
+  | _ => none
+
+def parseCrW : List String → Option CrW.Op
+  | ["poll", t, w, "write", n] => do some (.poll (← nat? t) (← nat? w) (some (← nat? n)))
+  | ["poll", t, w, "flush"] => do some (.poll (← nat? t) (← nat? w) none)
+  | ["load"] => some .load
+  | ["ack"] => some .ack
+  | ["dropfut", t] => do some (.dropfut (← nat? t))
+  | _ => none
+
+def crwExtra (s : CrW.State) (o : CrW.Op) (s' : CrW.State) : String :=
+  match o with
+  | .load =>
+    if s'.unacked.length > s.unacked.length then
+      match s'.unacked.getLast? with
+      | some (a, b) => s!" emitted={a}..{b}"
+      | none => " emitted=-"
+    else " emitted=-"
+  | _ => ""
+
+def parseCrR : List String → Option CrR.Op
+  | ["poll", t, w, c] => do some (.poll (← nat? t) (← nat? w) (← nat? c))
+  | ["recv", o, l] => do some (.recv (← nat? o) (← nat? l))
   | ["dropfut", t] => do some (.dropfut (← nat? t))
   | _ => none
 
@@ -160,6 +244,49 @@ def aaStep (a : AaSeq) (op : List String) : AaSeq × String :=
       (⟨AA.step s1 .casWake, a.slot⟩, s!"- wakes={fmtWakes wk}")
   | _ => (a, "BAD op")
 
+/-! `CidCell`: sequential composition of the critical sections of Model/WakeCid.lean; the driver remembers which waker
+the SendWaker holds and whether the first NEW_CONNECTION_ID (the one that reaches the waiting cell) has arrived. -/
+structure CidSeq where
+  s : Cid.State
+  slot : Option Nat
+  assigned : Bool
+
+def cidWakes (c : CidSeq) : List Nat :=
+  if c.s.cellWaker && !c.s.bit && c.s.registered then (match c.slot with | some w => [w] | none => []) else []
+
+def cidBorrow (c : CidSeq) : CidSeq × String :=
+  let s0 := Cid.step c.s .restart
+  let s1 := Cid.step s0 .waiter
+  if s0.retired then (⟨s1, c.slot, c.assigned⟩, "done")
+  else if !s0.hasCid then (⟨s1, c.slot, c.assigned⟩, "blocked")
+  else (⟨s1, c.slot, c.assigned⟩, "ready:1")
+
+def cidStep (c : CidSeq) (op : List String) : CidSeq × String :=
+  match op with
+  | ["borrow"] => let (c', r) := cidBorrow c; (c', s!"{r} wakes=-")
+  | ["poll", _, w] =>
+    match nat? w with
+    | none => (c, "BAD op")
+    | some w =>
+      let (c', r) := cidBorrow c
+      if r == "blocked" then
+        let hadBit := c'.s.bit
+        let s' := Cid.step c'.s .waiter
+        if hadBit then (⟨s', c'.slot, c'.assigned⟩, "ready:0 wakes=-") else (⟨s', some w, c'.assigned⟩, "pending wakes=-")
+      else (c', s!"{r} wakes=-")
+  | ["newcid"] =>
+    if c.assigned || c.s.retired then (c, "- wakes=-")
+    else
+      let c1 : CidSeq := ⟨{ c.s with hasCid := true }, c.slot, true⟩
+      (⟨Cid.step c.s .assign, c.slot, true⟩, s!"- wakes={fmtWakes (cidWakes c1)}")
+  | ["retire"] =>
+    if c.s.retired then (c, "- wakes=-")
+    else (⟨Cid.step c.s .retire, c.slot, c.assigned⟩, s!"- wakes={fmtWakes (cidWakes c)}")
+  | ["dropfut", _] => (c, "- wakes=-")
+  | _ => (c, "BAD op")
+
+def cidModel : Model CidSeq := { init := ⟨Cid.init, none, false⟩, step := exact cidStep }
+
 def aaModel : Model AaSeq := { init := ⟨AA.init, none⟩, step := exact aaStep }
 
 def entries : List (String × IO UInt32) :=
@@ -173,6 +300,15 @@ def entries : List (String × IO UInt32) :=
    ("C16keys", runModel (mk (Keys.proto false) parseKeys)),
    ("C16keys1", runModel (mk (Keys.proto true) parseKeys)),
    ("C16dg", runModel (mk Dgram.proto parseDgram)),
-   ("C16aa", runModel aaModel)]
+   ("C16aa", runModel aaModel),
+   ("C16snd", runModel (mkX (Snd.proto 6) parseSnd sndExtra)),
+   ("C16rcv", runModel (mk (Rcv.proto true 100) parseRcv)),
+   ("C16lsn", runModel (mk (Listen.proto 8) parseListen)),
+   ("C16fan", runModel (mk Fan.proto parseFan)),
+   ("C16crw", runModel (mkX (CrW.proto true) parseCrW crwExtra)),
+   ("C16crw0", runModel (mkX (CrW.proto false) parseCrW crwExtra)),
+   ("C16crr", runModel (mk CrR.proto parseCrR)),
+   ("C16cid", runModel cidModel),
+   ("C16rcv0", runModel (mk (Rcv.proto false 100) parseRcv))]
 
 end GmQuic.Drv.C16
